@@ -983,10 +983,11 @@ func c22Agg(c c22Col, in []c22PV) (c22ExpCell, []int64) {
 		num := n*c.P10*10 + 5000 // (N*p/100 + 0.5) * 10000 with p = P10/10
 		idx := num/10000 - 1
 		idxs := []int64{idx}
-		if num%10000 == 0 {
-			// exactly on a rounding boundary: a floating point evaluation of the documented
-			// formula may land on either side
-			idxs = append(idxs, idx-1)
+		// the same formula evaluated in float64 (N·p/100 + 0.5 with p as a float literal) can
+		// land on the other side of an integer when N·p/100 is not representable: then both
+		// indexes are accepted
+		if fi := int64(math.Floor(float64(n)*(float64(c.P10)/10)/100.0+0.5)) - 1; fi != idx {
+			idxs = append(idxs, fi)
 		}
 		sorted := append([]c22PV(nil), in...)
 		sort.SliceStable(sorted, func(i, j int) bool {
